@@ -85,9 +85,15 @@ TEvent.methods["set"] = amethod("Event.set", {"self": TEvent}, writes=lambda c, 
 TEvent.methods["clear"] = amethod("Event.clear", {"self": TEvent}, writes=lambda c, self: [(self, "isset")], ensures=lambda c, self: c.Not(flag(self, "isset")),
                                   emits=lambda c, ctx, self: ctx.emit("event.clear", self), has_events=True)
 TEvent.methods["is_set"] = amethod("Event.is_set", {"self": TEvent}, result=BOOL, ensures=lambda c, self, result: Z.Val.b(result.t) == flag(self, "isset"))
-TEvent.methods["wait"] = amethod("Event.wait", {"self": TEvent}, doc="wait(): returns once the event is set (by whichever thread)",
-                                 writes=lambda c, self: [(self, "isset")], ensures=lambda c, self: flag(self, "isset"),
-                                 emits=lambda c, ctx, self: ctx.emit("event.wait", self), has_events=True)
+def _wait_ensures(c, self, timeout, result):
+    unbounded = Z.is_none(timeout.t) if hasattr(timeout, "t") else z3.BoolVal(timeout is None)
+    return c.And(Z.Val.b(result.t) == flag(self, "isset"), c.Implies(unbounded, flag(self, "isset")))
+
+
+TEvent.methods["wait"] = amethod("Event.wait", {"self": TEvent, "timeout": ANYT},
+                                 doc="wait(timeout=None): returns True once the event is set (by whichever thread); with a timeout it may give up and return False, the event still unset",
+                                 writes=lambda c, self, timeout=None: [(self, "isset")], result=BOOL, ensures=_wait_ensures,
+                                 emits=lambda c, ctx, self, timeout=None: ctx.emit("event.wait", self), has_events=True)
 
 # ---- asyncio.Future -----------------------------------------------------------------------------------------
 Future = TAbs("asyncio.Future", fields=dict(is_done=BOOL, stored_exc=ANYT, stored_res=ANYT), events=False)
@@ -181,7 +187,17 @@ Future.observe = _observe_future
 
 
 # ---- trio memory channel (send side) and asyncio loop task creation ------------------------------------------------
-Chan = TAbs("trio.SendChannel", fields=dict(closed=BOOL), events=False)
+Chan = TAbs("trio.SendChannel", fields=dict(closed=BOOL, clone_of=ANYT), events=False)      # clone_of: None for a channel's first handle
+
+
+def _channel_of(ctx, handle):
+    """the channel a send handle stands for: a clone sends into the channel it was cloned from (one level: clones of clones are not modelled)"""
+    from pyvc.values import SV
+
+    t = handle.t
+    co = z3.Select(ctx.field_array("clone_of"), Z.Val.id(t))
+    return SV(z3.If(Z.is_none(co), t, co), ANYT)
+
 
 
 def _chan_send(kind, is_async):
@@ -191,7 +207,7 @@ def _chan_send(kind, is_async):
         requires=None,
         ensures=lambda c, self, item: c.Not(flag(self, "closed")),
         raises={"trio.ClosedResourceError": lambda c, self, item, exc: flag(self, "closed"), "trio.BrokenResourceError": lambda c, self, item, exc: True},
-        emits_after=lambda c, ctx, outcome, value, self, item: ctx.emit("chan.send" if outcome == "return" else "chan.send-failed", self, item),
+        emits_after=lambda c, ctx, outcome, value, self, item: ctx.emit("chan.send" if outcome == "return" else "chan.send-failed", _channel_of(ctx, self), item),
         has_events=True, is_async=is_async, exact_raises=True)
 
 
@@ -200,6 +216,32 @@ Chan.methods["send_nowait"] = _chan_send("send_nowait", False)
 Chan.methods["aclose"] = amethod("channel.aclose", {"self": Chan}, writes=lambda c, self: [(self, "closed")], ensures=lambda c, self: flag(self, "closed"),
                                  raises={"trio.Cancelled": lambda c, self, exc: True}, exact_raises=True,
                                  emits=lambda c, ctx, self: ctx.emit("chan.aclose", self), has_events=True, is_async=True)
+
+
+# the closing argument (C02) rests on the assumed contract "closing the send side ends the receive loop"; trio ends the receive side only once
+# EVERY clone of the send side is closed, so a function that clones it must close its clone again (recorded here, demanded by the contracts
+# of the functions that send: TrioRunner.register_payload)
+def _clone_after(c, ctx, outcome, value, self):
+    if outcome == "return":
+        ctx.ghost.setdefault("send_clones", []).append(value)
+
+
+Chan.methods["clone"] = amethod("channel.clone", {"self": Chan},
+                                doc="SendChannel.clone() (assumed): a NEW open handle on the same channel; the receive side ends only when all handles are closed",
+                                requires=lambda c, self: {"clones-are-made-of-the-first-handle-only": Z.is_none(self.clone_of.t)},
+                                result=Chan, fresh_result=True,
+                                ensures=lambda c, self, result: c.And(result.clone_of.t == self.t, c.Not(flag(result, "closed"))),
+                                emits_after=_clone_after)
+Chan.methods["__aenter__"] = amethod("channel.__aenter__", {"self": Chan}, result=Chan, ensures=lambda c, self, result: result.t == self.t, is_async=True)
+Chan.methods["__aexit__"] = amethod("channel.__aexit__", {"self": Chan, "et": ANYT, "ev": ANYT, "tb": ANYT}, writes=lambda c, self, **k: [(self, "closed")],
+                                    ensures=lambda c, self, **k: flag(self, "closed"), is_async=True)
+Chan.methods["close"] = amethod("channel.close", {"self": Chan}, writes=lambda c, self: [(self, "closed")], ensures=lambda c, self: flag(self, "closed"))
+
+
+def every_clone_made_here_is_closed(c):
+    """postcondition for a function that sends: no handle it cloned is left open (a leaked clone keeps the receive loop alive for ever)"""
+    cl = c.ctx.ghost.get("send_clones", [])
+    return c.And(*[Z.Val.b(z3.Select(c.ctx.rd(c.new_heap, "closed"), Z.Val.id(v.t))) for v in cl]) if cl else True
 
 
 def _create_task_emits(c, ctx, self, coro):
